@@ -519,6 +519,7 @@ type psym struct {
 	malformed      bool
 	direct         bool // Receiver.Direct with resend on, instead of a pubsub message
 	repeatCid      bool // reuse the CID of the previous step
+	selfOrigin     bool // republished by the author for an original publisher that is the receiver's own host
 }
 
 func layer4(t *testing.T, r *vp.Recorder, depth int) {
@@ -536,6 +537,7 @@ func layer4(t *testing.T, r *vp.Recorder, depth int) {
 		{name: "plain-from-denied", author: iDenied},
 		{name: "republished-by-denied-for-O", author: iDenied, origin: iO},
 		{name: "own-republication-for-O", author: iSelf, origin: iO},
+		{name: "republished-by-R-for-the-receivers-own-host", author: iR, selfOrigin: true},
 		{name: "malformed-from-F", author: iF, malformed: true},
 		{name: "direct-announce-of-O-with-resend", direct: true, origin: iO},
 		{name: "plain-from-F-same-cid-again", author: iF, repeatCid: true},
@@ -646,6 +648,9 @@ func layer4(t *testing.T, r *vp.Recorder, depth int) {
 							if sy.origin != 0 {
 								src = sy.origin
 							}
+							if sy.selfOrigin {
+								src = iSelf
+							}
 							if sy.direct {
 								if err := rc.Direct(context.Background(), c, peer.AddrInfo{ID: idents[sy.origin].ID}); err != nil {
 									bad, cls = fmt.Sprintf("step %d %s: Direct failed: %v", k, sy.name, err), "direct-error"
@@ -659,6 +664,9 @@ func layer4(t *testing.T, r *vp.Recorder, depth int) {
 									m := message.Message{Cid: c}
 									if sy.origin != 0 {
 										m.OrigPeer = idents[sy.origin].ID.String()
+									}
+									if sy.selfOrigin {
+										m.OrigPeer = idents[iSelf].ID.String()
 									}
 									var buf bytes.Buffer
 									if err := m.MarshalCBOR(&buf); err != nil {
@@ -737,7 +745,7 @@ func layer4(t *testing.T, r *vp.Recorder, depth int) {
 
 func TestCheck(t *testing.T) {
 	r := vp.New("C09", "model_checking",
-		"three layers, all against one reference model (allow predicate, then an LRU set with refresh-on-hit and explicit removal): (1) the LRU object (test-only export) at capacities 1..3 over capacity+2 strings: every sequence of exactly `depth` update/remove operations, return value and length compared after every step; (2) the real receiver (no pubsub) at its real capacity: a fill prefix of exactly capacity distinct CIDs (three variants: plain, one refreshed in the middle, one un-cached and re-announced) followed by every sequence of <= N operations over {announce oldest / second-oldest / newest / a fresh CID / a fresh CID from a denied peer / the oldest CID from a denied peer / the CID evicted last / the CID added last / a burst of capacity-1 fresh CIDs / the same digest as the newest or the oldest under another codec, un-cache oldest / newest / the other-codec variant of the newest}; after each announcement a consumer calls Next and quiescence in a synctest bubble decides delivered / not delivered; (3) every address list of <= M over 19 addresses (public, private ranges, loopback, unspecified, unique-local, localhost; the IP followed by tcp, udp, sctp, tls, http or nothing) with filtering on and off; (4) the pubsub path: every sequence of <= K messages over {plain from F, republished by relay R for origin O, republished for a denied origin, plain from a denied peer, republished by a denied relay for O, own republication, malformed payload, direct announcement with resend, repeats of the previous CID}, delivery / non-delivery and attribution decided by quiescence. states = distinct sequences; transitions = operations; traces = sequences executed on the real code.",
+		"three layers, all against one reference model (allow predicate, then an LRU set with refresh-on-hit and explicit removal): (1) the LRU object (test-only export) at capacities 1..3 over capacity+2 strings: every sequence of exactly `depth` update/remove operations, return value and length compared after every step; (2) the real receiver (no pubsub) at its real capacity: a fill prefix of exactly capacity distinct CIDs (three variants: plain, one refreshed in the middle, one un-cached and re-announced) followed by every sequence of <= N operations over {announce oldest / second-oldest / newest / a fresh CID / a fresh CID from a denied peer / the oldest CID from a denied peer / the CID evicted last / the CID added last / a burst of capacity-1 fresh CIDs / the same digest as the newest or the oldest under another codec, un-cache oldest / newest / the other-codec variant of the newest}; after each announcement a consumer calls Next and quiescence in a synctest bubble decides delivered / not delivered; (3) every address list of <= M over 19 addresses (public, private ranges, loopback, unspecified, unique-local, localhost; the IP followed by tcp, udp, sctp, tls, http or nothing) with filtering on and off; (4) the pubsub path: every sequence of <= K messages over {plain from F, republished by relay R for origin O, republished for a denied origin, plain from a denied peer, republished by a denied relay for O, own republication, republished by R for an original publisher that is the receiver's own host, malformed payload, direct announcement with resend, repeats of the previous CID}, delivery / non-delivery and attribution decided by quiescence. states = distinct sequences; transitions = operations; traces = sequences executed on the real code.",
 		"reference model is the oracle (trusted, 30 lines)",
 		"pubsub path (layer 4): one libp2p host without transports and one gossipsub topic inside a synctest bubble; messages are injected on the topic under arbitrary author identities; multi-host gossip is not driven",
 		"non-public is judged by net.IP.IsLoopback/IsPrivate/IsUnspecified and the name localhost, independently of go-multiaddr's own classification",
